@@ -62,8 +62,10 @@ impl Universe {
     pub fn giant() -> Universe {
         let mut u = Universe::with_richness(2, false, false);
         let g = usize::MAX / 2;
-        u.vheaps = vec![0, 1, g];
-        u.limits = vec![0, u.e, u.e + g, 2 * u.e + g + 1, usize::MAX - 1, usize::MAX];
+        // g = isize::MAX; g + 2 is a growth that does not fit a signed word; the last
+        // size makes an entry of key 1 (whose key owns one byte) exactly usize::MAX bytes
+        u.vheaps = vec![0, 1, g, g + 2, usize::MAX - u.e - 1];
+        u.limits = vec![0, u.e, u.e + g, 2 * u.e + g + 1, u.e + g + 3, 2 * u.e + g + 4, usize::MAX - 1, usize::MAX];
         u
     }
 
